@@ -340,7 +340,7 @@ func runHistory(r *vx.Run, h []hreq) {
 		}()
 		in0 := map[string]any{"history": h, "failing_request": i}
 		if first, stored := storedBy[q.IK]; q.IK != "" && stored && !sameRequest(first, q) {
-			// the key stores the outcome of a DIFFERENT request: refused with a client error, nothing written, nothing
+			// the key stores the outcome of a DIFFERENT request: refused with an error response (which status code is not what C06/C07/C16 are about), nothing written, nothing
 			// published (a preview is refused too: the key is looked up before anything else)
 			r.Count("http:key-reused-for-a-different-request")
 			switch {
@@ -348,8 +348,8 @@ func runHistory(r *vx.Run, h []hreq) {
 				r.FailP("C06", "http:key-reused-for-a-different-request:panic:"+q.API+":"+q.Kind, in0, pan, size)
 			case rec.Code >= 200 && rec.Code < 300:
 				r.FailP("C07", "http:key-reused-for-a-different-request-accepted:"+q.API+":"+q.Kind, in0, fmt.Sprintf("key %q stores the outcome of %s %s; status %d", q.IK, first.API, first.Kind, rec.Code), size)
-			case rec.Code < 400 || rec.Code >= 500:
-				r.FailP("C06", "http:key-reused-for-a-different-request:not-a-client-error:"+q.API+":"+q.Kind, in0, fmt.Sprintf("status %d", rec.Code), size)
+			case rec.Code < 400:
+				r.FailP("C06", "http:key-reused-for-a-different-request:not-an-error:"+q.API+":"+q.Kind, in0, fmt.Sprintf("status %d", rec.Code), size)
 			}
 			if len(disk.Logs) != before {
 				r.FailP("C07", "http:key-reused-for-a-different-request-wrote:"+q.API+":"+q.Kind, in0, fmt.Sprintf("%d new entries", len(disk.Logs)-before), size)
